@@ -174,7 +174,7 @@ func c14Case(g *hx.Gen, p c14Par, self, comp bool, t, q []byte) {
 }
 
 func c14Gen(g *hx.Gen) {
-	total := g.Scale(300, 20000)
+	total := g.Scale(1500, 20000)
 	for i := 0; i < total && !g.Done(); i++ {
 		p := c14Params(g)
 		if g.Chance(0.03) { // parameters outside the property: non-positive threshold, offset < e, offset 0
@@ -209,13 +209,23 @@ func c14Gen(g *hx.Gen) {
 			nsym = 2 // low complexity: many common k-mers, long runs in every tube
 		}
 		t := c14Rand(g, tl, nsym)
-		mode := g.Intn(10)
+		mode := g.Intn(8)
 		switch {
 		case mode == 0: // self comparison with planted internal repeats
 			for j := g.Pick(1, 2, 4); j > 0; j-- {
 				L := p.n + g.Pick(0, 0, 1, 3, 10, 40)
 				a, b := g.Intn(tl), g.Intn(tl)
+				if g.Chance(0.5) { // just above the main diagonal, where the self-comparison cut acts
+					b = a + g.Pick(1, 1, 2, 3, p.k, p.n)
+				}
 				c14Plant(g, t, t, a, b, L, g.Range(0, p.e+1))
+			}
+			if g.Chance(0.3) { // a tandem repeat: matches on every diagonal that is a multiple of the period
+				u := g.Pick(1, 2, 3, 5)
+				from := g.Intn(tl)
+				for i := from + u; i < tl && i < from+4*p.n; i++ {
+					t[i] = t[i-u]
+				}
 			}
 			c14Case(g, p, true, false, t, nil)
 		case mode == 1 && g.Chance(0.5): // complemented self comparison (outside the stated property: model only)
